@@ -112,6 +112,7 @@ type Task struct {
 	exiting bool // unwinding via Goexit: shims reached from deferred calls pass through
 	done    bool
 	fake    map[uintptr]int // locks "held" only nominally while dying
+	real    map[uintptr]int // mutexes a dying task really took through TryLock
 	client  bool
 	auxN    uint64
 	anon    bool
@@ -1079,6 +1080,10 @@ func key(p unsafe.Pointer) uintptr { return uintptr(p) }
 
 func (s *Sim) dyingLock(t *Task, k uintptr, try func() bool) {
 	if try() {
+		if t.real == nil {
+			t.real = map[uintptr]int{}
+		}
+		t.real[k]++ // really taken (outside the lock table): its Unlock must reach the mutex
 		return
 	}
 	if t.fake == nil {
@@ -1160,6 +1165,22 @@ func Unlock(m *sync.Mutex) {
 	k := key(unsafe.Pointer(m))
 	if t.dying && s.dyingUnlock(t, k) {
 		return
+	}
+	if t.dying || t.exiting {
+		// a task that is being unwound (its node crashed, the run is over) runs its deferred unlocks; if
+		// it was unwound while it did not hold the mutex (between an explicit Unlock and the re-Lock of an
+		// "unlock around a slow call" pattern) there is nothing to unlock
+		s.mu.Lock()
+		ls := s.locks[k]
+		held := ls != nil && ls.writer == t
+		s.mu.Unlock()
+		if !held && t.real[k] > 0 {
+			t.real[k]--
+			held = true
+		}
+		if !held {
+			return
+		}
 	}
 	m.Unlock()
 	s.mu.Lock()
